@@ -861,7 +861,9 @@ static void DecodeImm(Word Index) {
         BAsmCode[1] = EvalStrIntExpressionOffs(&ArgStr[1], 1, Int8, &OK);
         if (OK) {
             DecodeAdr(2, ArgCnt, 2);
-            if (AdrMode == ModImm) {
+            if (AdrMode == ModNone)
+                ;
+            else if (AdrMode == ModImm) {
                 WrError(ErrNum_InvAddrMode);
             } else {
                 switch (AdrMode) {
